@@ -12,6 +12,7 @@ import (
 	"encoding/binary"
 	"fmt"
 	"io"
+	"os"
 )
 
 // NFSProcedureHandler handles NFS procedure calls
@@ -300,6 +301,23 @@ func nfsErrorWithDoubleWcc(reply *RPCReply, status uint32) *RPCReply {
 	xdrEncodeUint32(&buf, 0) // todir wcc post_op_attr: FALSE
 	reply.Data = buf.Bytes()
 	return reply
+}
+
+// currentMode returns the file mode the handle's path has right now (lstat).
+// A handle is bound to a path and its node only remembers the attributes seen
+// when the handle was issued, so the object's type must be taken from the
+// backend: another object may since have been put at that path. If the path
+// cannot be stat'ed the remembered mode is returned.
+func (h *NFSProcedureHandler) currentMode(node *NFSNode) os.FileMode {
+	if attrs, err := h.server.handler.GetAttr(node); err == nil {
+		return attrs.Mode
+	}
+	node.mu.RLock()
+	defer node.mu.RUnlock()
+	if node.attrs == nil {
+		return 0
+	}
+	return node.attrs.Mode
 }
 
 // lookupNode retrieves a node from the file handle map
